@@ -432,6 +432,32 @@ func setRoot(dir string) any {
 	return []any{"ok", 6}
 }
 
+// setRoots: nested SetRoot calls (each relative to the process directory dir), then MergeFileLayers(file) and Output
+func setRoots(dir string, roots []any, file string) any {
+	cwd, _ := os.Getwd()
+	defer os.Chdir(cwd)
+	if err := os.Chdir(dir); err != nil {
+		return []any{"err", "chdir"}
+	}
+	p, err := bkl.New()
+	if err != nil {
+		return []any{"err", "new"}
+	}
+	for _, r := range roots {
+		if err := p.SetRoot(r.(string)); err != nil {
+			return []any{"setroot-err"}
+		}
+	}
+	if err := p.MergeFileLayers(file); err != nil {
+		return errv(err)
+	}
+	out, err := p.Output("json")
+	if err != nil {
+		return errv(err)
+	}
+	return ok(string(out))
+}
+
 func yamlParse(args []any) any {
 	r := map[string]any{}
 	for _, a := range args[0].([]any) {
@@ -562,6 +588,8 @@ func runCase(c any) (res any) {
 		return loadFiles(l[1].(string), l[2].([]any))
 	case "setroot":
 		return setRoot(l[1].(string))
+	case "setroots":
+		return setRoots(l[1].(string), l[2].([]any), l[3].(string))
 	case "yaml":
 		return yamlParse(l[1:])
 	case "enc":
